@@ -333,7 +333,8 @@ class PassFormula:
         return False
 
     def _is_error_ctor(self, v: ast.AST, func: FuncInfo) -> bool:
-        return isinstance(v, ast.Call) and self.model.resolve(v.func, func.module, func) in self.err_classes
+        from .pairs import builds_error_node
+        return builds_error_node(self.model, func, v)
 
     def _enclosing_guards(self, call: ast.AST, root: ast.AST, n: Node, nz: Normalizer) -> t.Any:
         """Guards of the comprehensions / filters / loop headers the delegation sits in."""
